@@ -195,3 +195,162 @@ func genPreemptions(t *rapid.T, early, max int) []vsched.Preempt {
 	}
 	return ps
 }
+
+// TestPropAcquireVsSchemaChangeSchedules: requests racing with the addition, removal and type change of their schema.
+func TestPropAcquireVsSchemaChangeSchedules(t *testing.T) {
+	sub := stats.NewSub("acquire-vs-schema-change-schedules", "rapid + deterministic scheduler (as above, plus schedule points in pkg/flowcontrols/limiter.go): 2-3 worker threads with scripts of acquire / release through GetOrDefault(name).TryAcquire()/Release() and one configuration thread that removes the max-in-flight schema, adds it again, or changes it to a token bucket and back (always with the same limit M), 1-3 steps, ending with the schema present; the interleaving is given by 0-5 rapid-drawn pre-emption points; oracle: no panic and no deadlock whatever the interleaving (a request that finds the schema half configured must be decided, not crash); for every successful TryAcquire on a max-in-flight incarnation, the requests admitted earlier on the SAME incarnation and unfinished during the whole call number fewer than M; at quiescence exactly M new acquisitions succeed; non-trivial = a worker is pre-empted and the configuration thread ran concurrently; distinct by FNV-64 of (scripts, steps, schedule)")
+	stats.Check(t, stats.N(4000, 40000), func(t *rapid.T) {
+		m0 := int32(rapid.IntRange(1, 3).Draw(t, "M"))
+		nWorkers := rapid.IntRange(2, 3).Draw(t, "workers")
+		scripts := make([][]bool, nWorkers)
+		for i := range scripts {
+			n := rapid.IntRange(1, 4).Draw(t, fmt.Sprintf("worker[%d].ops", i))
+			for j := 0; j < n; j++ {
+				scripts[i] = append(scripts[i], rapid.IntRange(0, 2).Draw(t, fmt.Sprintf("worker[%d].op[%d]", i, j)) != 0)
+			}
+		}
+		present := rapid.Bool().Draw(t, "presentAtStart")
+		var steps []string
+		cur := present
+		for i, k := 0, rapid.IntRange(1, 3).Draw(t, "nsteps"); i < k; i++ {
+			var st string
+			if cur {
+				st = rapid.SampledFrom([]string{"remove", "to-token-bucket-and-back"}).Draw(t, fmt.Sprintf("step[%d]", i))
+			} else {
+				st = "add"
+			}
+			if st == "remove" {
+				cur = false
+			} else {
+				cur = true
+			}
+			steps = append(steps, st)
+		}
+		if !cur {
+			steps = append(steps, "add")
+		}
+		mif := proxyv1alpha1.FlowControl{Schemas: []proxyv1alpha1.FlowControlSchema{cfg{Kind: "mif", M: m0}.schema("s"), cfg{Kind: "mif", M: 1}.schema("other")}}
+		none := proxyv1alpha1.FlowControl{Schemas: []proxyv1alpha1.FlowControlSchema{cfg{Kind: "mif", M: 1}.schema("other")}}
+		tb := proxyv1alpha1.FlowControl{Schemas: []proxyv1alpha1.FlowControlSchema{cfg{Kind: "tb", M: 1000, Burst: 1000}.schema("s"), cfg{Kind: "mif", M: 1}.schema("other")}}
+		ctx, cancel := context.WithCancel(context.Background())
+		defer cancel()
+		ul := flowcontrols.NewUpstreamLimiter(ctx, "c1", "", nil)
+		defer ul.Sync(proxyv1alpha1.FlowControl{})
+		if present {
+			ul.Sync(mif)
+		} else {
+			ul.Sync(none)
+		}
+		s := vsched.New()
+		type aspan struct {
+			span
+			fc flowcontrol.FlowControl
+		}
+		var spans []*aspan
+		now := func() int { return len(s.Trace) }
+		var bodies []func()
+		for i := range scripts {
+			i := i
+			bodies = append(bodies, func() {
+				var held []*aspan
+				for _, acq := range scripts[i] {
+					if acq {
+						fc := ul.GetOrDefault("s")
+						sp := &aspan{span: span{start: now(), worker: i}, fc: fc}
+						sp.ok = fc.TryAcquire()
+						sp.end = now()
+						spans = append(spans, sp)
+						if sp.ok {
+							held = append(held, sp)
+						}
+					} else if len(held) > 0 {
+						held[0].relStart = now()
+						held[0].fc.Release()
+						held = held[1:]
+					}
+				}
+				for k := range held {
+					held[k].relStart = now()
+					held[k].fc.Release()
+				}
+			})
+		}
+		configStart, configEnd := 0, 0
+		bodies = append(bodies, func() {
+			configStart = now()
+			for _, st := range steps {
+				switch st {
+				case "remove":
+					ul.Sync(none)
+				case "add":
+					ul.Sync(mif)
+				default:
+					ul.Sync(tb)
+					ul.Sync(mif)
+				}
+			}
+			configEnd = now()
+		})
+		flowcontrol.VerifPoint, remote.VerifPoint, golibmif.VerifPoint, flowcontrols.VerifPoint = s.Point, s.Point, s.Point, s.Point
+		flowcontrol.VerifLockHook, remote.VerifLockHook, golibmif.VerifLockHook, flowcontrols.VerifLockHook = s.LockHook, s.LockHook, s.LockHook, s.LockHook
+		reset := func() {
+			nop := func(int) {}
+			flowcontrol.VerifPoint, remote.VerifPoint, golibmif.VerifPoint, flowcontrols.VerifPoint = nop, nop, nop, nop
+			flowcontrol.VerifLockHook, remote.VerifLockHook, golibmif.VerifLockHook, flowcontrols.VerifLockHook = nil, nil, nil, nil
+		}
+		defer reset()
+		res := s.Run(bodies, vsched.PreemptionChooser(genPreemptions(t, 40, 400)))
+		reset()
+		sub.Eval()
+		desc := fmt.Sprintf("M=%d present at start=%v scripts(acquire=true)=%v configuration steps=%v schedule(thread per step)=%v", m0, present, scripts, steps, s.Trace)
+		if res.Deadlock || res.Panic != nil || res.Overrun {
+			t.Fatalf("deadlock=%v panic=%v overrun=%v while requests race with a schema change\n%s", res.Deadlock, res.Panic, res.Overrun, desc)
+		}
+		for _, sp := range spans {
+			if !sp.ok || sp.fc.Type() != proxyv1alpha1.MaxRequestsInflight {
+				continue
+			}
+			definitely := 0
+			for _, o := range spans {
+				if o == sp || !o.ok || o.fc != sp.fc {
+					continue
+				}
+				if o.end <= sp.start && (o.relStart == 0 || o.relStart >= sp.end) {
+					definitely++
+				}
+			}
+			if int32(definitely) >= m0 {
+				t.Fatalf("a request was admitted (steps %d-%d, worker %d) while %d requests admitted earlier under the same incarnation of the schema were still unfinished during the whole call; limit %d\n%s", sp.start, sp.end, sp.worker, definitely, m0, desc)
+			}
+		}
+		var hs []flowcontrol.FlowControl
+		n := int32(0)
+		for n <= m0+1 {
+			fc := ul.GetOrDefault("s")
+			if !fc.TryAcquire() {
+				break
+			}
+			hs = append(hs, fc)
+			n++
+		}
+		for _, h := range hs {
+			h.Release()
+		}
+		if n != m0 {
+			t.Fatalf("after all requests finished %d new requests are admitted, the limit is %d\n%s", n, m0, desc)
+		}
+		concurrent := false
+		for _, sp := range spans {
+			if sp.start <= configEnd && sp.end >= configStart {
+				concurrent = true
+			}
+		}
+		if vsched.Switches(s.Trace) >= 1 && concurrent {
+			sub.NonTrivial(stats.HashString(desc))
+			sub.Class("request-concurrent-with-a-schema-change")
+			if sub.WantSample() {
+				sub.Sample(desc)
+			}
+		}
+	})
+}
